@@ -152,8 +152,11 @@ impl BuildJob<'_> {
             if !sf.is_override {
                 log_warn!("{:?} - old: {:?}\n", &nice_t, &sf.stamp);
                 log_warn!("{:?} - old: {:?}\n", &nice_t, &newstamp);
-                sf.set_override(ptx.state().env())?;
             }
+            // Also when it already was an override: the user may have edited
+            // it again, and a stamp that is never refreshed keeps every
+            // dependent dirty forever.
+            sf.set_override(ptx.state().env())?;
             sf.save(&mut ptx)?;
             // Fall through and treat it the same as a static file.
         }
